@@ -83,6 +83,61 @@ def oracle_pair(ep, outs):
     return fails
 
 
+def wire_limit_episodes(rng):
+    """the response limit (1000 bytes) on the wire: the plugin in the handler cmd/helios builds, behind the real
+    reverse proxy and server, alone and with the other shipped plugins around it; bodies below, at and above the
+    limit, written at once or streamed with flushes, declared or not"""
+    from . import c01
+    eps = []
+    for feats in ("S", "lS", "Sl", "S"):
+        ep = ["px new round_robin 00 - %s" % feats]
+        for total, pieces, declared, status in ((500, 1, True, 200), (1000, 1, False, 200), (1001, 1, True, 200), (5000, 1, False, 200),
+                                                (1200, 4, False, 200), (3000, 6, False, 404), (999, 3, False, 201), (50000, 2, True, 200)):
+            ops = ["sh:Content-Type:text%2Fplain"]
+            if declared:
+                ops.append("sh:Content-Length:%d" % total)
+            ops.append("wh:%d" % status)
+            seed = rng.randint(0, 250)
+            part = total // pieces
+            for k in range(pieces):
+                n = part if k < pieces - 1 else total - part * (pieces - 1)
+                ops.append("w:%d:%d" % (n, seed))
+                seed = (seed + n) % 251
+                if pieces > 1:
+                    ops.append("fl")
+            for mode in ("direct", "via"):
+                ep.append("px x %s GET /p - 0 cl %s" % (mode, ";".join(ops)))
+        ep.append("px close")
+        eps.append(ep)
+    return eps
+
+
+def wire_limit_oracle(ep, outs):
+    """never more than the limit reaches the client, and nothing the backend did not send; within the limit the
+    answer is the backend's"""
+    lines = C.op_lines(ep)
+    fails = []
+    i = 1
+    while i + 1 < len(lines):
+        if not (lines[i].startswith("px x direct") and lines[i + 1].startswith("px x via")):
+            i += 1
+            continue
+        fd = dict(t.split("=", 1) for t in outs[i].split("||")[0].split()[1:] if "=" in t)
+        fv = dict(t.split("=", 1) for t in outs[i + 1].split("||")[0].split()[1:] if "=" in t)
+        i += 2
+        if "body" not in fd or "body" not in fv:
+            continue
+        dl, vl = int(fd["body"].split(":")[0]), int(fv["body"].split(":")[0])
+        if vl > 1000:
+            fails.append("the client received %d body bytes through a chain whose response limit is 1000 (%s)" % (vl, lines[i - 1]))
+        elif dl <= 1000 and (fv["body"] != fd["body"] or fv.get("status") != fd.get("status") or fv.get("short") != fd.get("short")):
+            fails.append("an answer within the response limit was changed on the way: backend status %s body len:hash %s, client status %s body %s short=%s (%s)" % (
+                fd.get("status"), fd["body"], fv.get("status"), fv["body"], fv.get("short"), lines[i - 1]))
+        elif dl > 1000 and fv.get("status") == fd.get("status") and fv.get("short") == "0":
+            fails.append("a body of %d bytes, over the response limit of 1000, reached the client as a complete %s answer of %d bytes (%s)" % (dl, fv.get("status"), vl, lines[i - 1]))
+    return fails
+
+
 def check(ctx):
     ctx.assumptions += [
         "net/http server response semantics are modelled (Base) and validated against a real http.Server on loopback on every run",
@@ -112,6 +167,10 @@ def check(ctx):
     fronts = [c17.front_episode(ctx.rng) for _ in range(200 if ctx.thorough() else 40)]
     dfe.check(fronts, oracle=c17.front_oracle, label="sizelimit-front")
     ctx.cov["front_end_episodes"] = len(fronts)
+    # the response limit behind the real reverse proxy (judged by the oracle alone: the wire model has no plugins)
+    wl = wire_limit_episodes(ctx.rng) if ctx.thorough() else wire_limit_episodes(ctx.rng)[:2]
+    C.Differential(ctx, hel, timeout=600).check_oracle_only(wl, wire_limit_oracle, "sizelimit-wire")
+    ctx.cov["wire_limit_episodes"] = len(wl)
     nontriv = set()
     hit413 = trunc = 0
     if bad == 0:
